@@ -1,11 +1,179 @@
-import CmModel.Wcag
-/-! # C05 (carrier-independent part; the real-number theorems live beside it) -/
+import CmProofs.WcagReal
+/-!
+# C05 — WCAG relative luminance, contrast ratio and levels (model at ℝ)
+
+All statements are about the generic model of `CmModel/Wcag.lean` instantiated at the real-number
+carrier `Cm.realNum`; helper lemmas live in `CmProofs/WcagReal.lean`.
+-/
 namespace CmProps.C05
 open Cm
 
-/-- label of each level, as `ColorPair.is_readable` shows it -/
-theorem label_of_level :
-    Level.label .AAA = "Very Readable" ∧ Level.label .AA = "Readable" ∧ Level.label .FAIL = "Not Readable" :=
-  ⟨rfl, rfl, rfl⟩
+local notation "lumR" => @Cm.luminance ℝ Cm.realNum
+local notation "ratioR" => @Cm.contrastRatio ℝ Cm.realNum
+local notation "levelR" => @Cm.contrastLevel ℝ Cm.realNum.toNum
+
+/-- the hypotheses used below are satisfiable: a concrete valid colour -/
+example : validRgb (18, 52, 86) = true := by decide
+
+/-- black and white are valid, so the extremal statements are not vacuous -/
+example : validRgb (0, 0, 0) = true ∧ validRgb (255, 255, 255) = true := by decide
+
+/-- out-of-range triples are rejected (validity is a real restriction) -/
+example : validRgb (256, 0, 0) = false ∧ validRgb (0, -1, 0) = false := by decide
+
+/-- the relative luminance of a valid colour lies in `[0, 1]` -/
+theorem lum_range (c : RGB) (h : validRgb c = true) : 0 ≤ lumR c ∧ lumR c ≤ 1 :=
+  ⟨luminance_nonneg h, luminance_le_one h⟩
+
+/-- black has luminance `0` -/
+theorem lum_black : lumR (0, 0, 0) = 0 := (luminance_eq_zero_iff (by decide)).2 rfl
+
+/-- white has luminance `1` -/
+theorem lum_white : lumR (255, 255, 255) = 1 := (luminance_eq_one_iff (by decide)).2 rfl
+
+/-- among valid colours only black has luminance `0` -/
+theorem lum_eq_zero_iff (c : RGB) (h : validRgb c = true) : lumR c = 0 ↔ c = (0, 0, 0) :=
+  luminance_eq_zero_iff h
+
+/-- among valid colours only white has luminance `1` -/
+theorem lum_eq_one_iff (c : RGB) (h : validRgb c = true) : lumR c = 1 ↔ c = (255, 255, 255) :=
+  luminance_eq_one_iff h
+
+/-- strictly increasing the red channel strictly increases the luminance -/
+theorem lum_strictMono_r (r r' g b : Int) (_h : validRgb (r, g, b) = true)
+    (_h' : validRgb (r', g, b) = true) (hlt : r < r') : lumR (r, g, b) < lumR (r', g, b) := by
+  rw [luminance_real, luminance_real]
+  have := lin_lt_iff.2 (chanR_lt_iff.2 hlt)
+  norm_num
+  linarith
+
+/-- strictly increasing the green channel strictly increases the luminance -/
+theorem lum_strictMono_g (r g g' b : Int) (_h : validRgb (r, g, b) = true)
+    (_h' : validRgb (r, g', b) = true) (hlt : g < g') : lumR (r, g, b) < lumR (r, g', b) := by
+  rw [luminance_real, luminance_real]
+  have := lin_lt_iff.2 (chanR_lt_iff.2 hlt)
+  norm_num
+  linarith
+
+/-- strictly increasing the blue channel strictly increases the luminance -/
+theorem lum_strictMono_b (r g b b' : Int) (_h : validRgb (r, g, b) = true)
+    (_h' : validRgb (r, g, b') = true) (hlt : b < b') : lumR (r, g, b) < lumR (r, g, b') := by
+  rw [luminance_real, luminance_real]
+  have := lin_lt_iff.2 (chanR_lt_iff.2 hlt)
+  norm_num
+  linarith
+
+/-- the hypotheses of `lum_strictMono_r` are jointly satisfiable -/
+example : lumR (10, 20, 30) < lumR (11, 20, 30) :=
+  lum_strictMono_r 10 11 20 30 (by decide) (by decide) (by decide)
+
+/-- the contrast ratio does not depend on which colour is text and which is background -/
+theorem ratio_symm (a b : RGB) : ratioR a b = ratioR b a := by
+  rw [contrastRatio_real, contrastRatio_real, max_comm, min_comm]
+
+/-- the contrast ratio of two valid colours lies in `[1, 21]` -/
+theorem ratio_range (a b : RGB) (ha : validRgb a = true) (hb : validRgb b = true) :
+    1 ≤ ratioR a b ∧ ratioR a b ≤ 21 := by
+  rw [contrastRatio_real]
+  exact ratio_bounds (le_min (luminance_nonneg ha) (luminance_nonneg hb)) min_le_max
+    (max_le (luminance_le_one ha) (luminance_le_one hb))
+
+/-- a valid colour has contrast ratio `1` against itself -/
+theorem ratio_self (a : RGB) (ha : validRgb a = true) : ratioR a a = 1 := by
+  rw [contrastRatio_real, max_self, min_self]
+  have := luminance_nonneg ha
+  exact div_self (by norm_num; linarith)
+
+/-- the maximal ratio `21` is attained exactly by black on white and white on black -/
+theorem ratio_eq_21_iff (a b : RGB) (ha : validRgb a = true) (hb : validRgb b = true) :
+    ratioR a b = 21 ↔
+      (a = (0, 0, 0) ∧ b = (255, 255, 255)) ∨ (a = (255, 255, 255) ∧ b = (0, 0, 0)) := by
+  have a0 := luminance_nonneg ha
+  have a1 := luminance_le_one ha
+  have b0 := luminance_nonneg hb
+  have b1 := luminance_le_one hb
+  rw [contrastRatio_real, ratio_eq_21 (le_min a0 b0) (max_le a1 b1),
+    ← luminance_eq_zero_iff ha, ← luminance_eq_zero_iff hb,
+    ← luminance_eq_one_iff ha, ← luminance_eq_one_iff hb]
+  constructor
+  · rintro ⟨hmin, hmax⟩
+    rcases le_total (lumR a) (lumR b) with hab | hab
+    · rw [min_eq_left hab] at hmin; rw [max_eq_right hab] at hmax
+      exact Or.inl ⟨hmin, hmax⟩
+    · rw [min_eq_right hab] at hmin; rw [max_eq_left hab] at hmax
+      exact Or.inr ⟨hmax, hmin⟩
+  · rintro (⟨h0, h1⟩ | ⟨h1, h0⟩)
+    · rw [h0, h1]; norm_num
+    · rw [h0, h1]; norm_num
+
+/-- WCAG's `0.03928` and sRGB's `0.04045` select the same branch on every 8-bit channel value -/
+theorem lin_threshold_immaterial : ∀ v : Int, 0 ≤ v → v ≤ 255 →
+    (((v : ℝ) / 255 ≤ 0.03928) ↔ ((v : ℝ) / 255 ≤ 0.04045)) := by
+  intro v _ _
+  have key : ∀ t : ℝ, 10 ≤ t → t < 11 → ((v : ℝ) ≤ t ↔ v ≤ 10) := by
+    intro t h10 h11
+    constructor
+    · intro h
+      by_contra hc
+      have : (11 : ℤ) ≤ v := by omega
+      have : (11 : ℝ) ≤ (v : ℝ) := by exact_mod_cast this
+      linarith
+    · intro h
+      have : (v : ℝ) ≤ 10 := by exact_mod_cast h
+      linarith
+  rw [div_le_iff₀ (by norm_num), div_le_iff₀ (by norm_num),
+    key _ (by norm_num) (by norm_num), key _ (by norm_num) (by norm_num)]
+
+/-- both thresholds cut the 8-bit channel values between `10` and `11` -/
+theorem lin_threshold_cut (v : Int) : ((v : ℝ) / 255 ≤ 0.04045) ↔ v ≤ 10 := by
+  rw [div_le_iff₀ (by norm_num)]
+  constructor
+  · intro h
+    by_contra hc
+    have : (11 : ℤ) ≤ v := by omega
+    have : (11 : ℝ) ≤ (v : ℝ) := by exact_mod_cast this
+    norm_num at h
+    linarith
+  · intro h
+    have : (v : ℝ) ≤ 10 := by exact_mod_cast h
+    norm_num
+    linarith
+
+/-- `AAA` exactly when the ratio reaches `7` (`4.5` for large text), inclusive -/
+theorem level_AAA_iff (r : ℝ) (large : Bool) :
+    levelR r large = .AAA ↔ (if large then (4.5 : ℝ) else 7) ≤ r := by
+  rw [contrastLevel_real]
+  cases large <;> norm_num <;> split_ifs <;> simp_all
+
+/-- `AA` exactly when the ratio reaches `4.5` (`3` for large text) but not the `AAA` threshold -/
+theorem level_AA_iff (r : ℝ) (large : Bool) :
+    levelR r large = .AA ↔
+      (if large then (3 : ℝ) else 4.5) ≤ r ∧ r < (if large then (4.5 : ℝ) else 7) := by
+  rw [contrastLevel_real]
+  cases large <;> norm_num <;> split_ifs <;> simp_all
+
+/-- `FAIL` exactly when the ratio is below `4.5` (`3` for large text) -/
+theorem level_FAIL_iff (r : ℝ) (large : Bool) :
+    levelR r large = .FAIL ↔ r < (if large then (3 : ℝ) else 4.5) := by
+  rw [contrastLevel_real]
+  cases large <;> norm_num <;> split_ifs <;> simp_all <;> linarith
+
+/-- complete characterisation of `get_contrast_level` at ℝ (thresholds inclusive) -/
+theorem level_iff (r : ℝ) (large : Bool) :
+    (levelR r large = .AAA ↔ (if large then (4.5 : ℝ) else 7) ≤ r) ∧
+    (levelR r large = .AA ↔
+      (if large then (3 : ℝ) else 4.5) ≤ r ∧ r < (if large then (4.5 : ℝ) else 7)) ∧
+    (levelR r large = .FAIL ↔ r < (if large then (3 : ℝ) else 4.5)) :=
+  ⟨level_AAA_iff r large, level_AA_iff r large, level_FAIL_iff r large⟩
+
+/-- the thresholds themselves are included: exactly `7` is `AAA`, exactly `4.5` is `AA` -/
+example : levelR 7 false = .AAA ∧ levelR 4.5 false = .AA ∧ levelR 4.5 true = .AAA ∧
+    levelR 3 true = .AA := by
+  refine ⟨(level_AAA_iff _ _).2 ?_, (level_AA_iff _ _).2 ?_, (level_AAA_iff _ _).2 ?_,
+    (level_AA_iff _ _).2 ?_⟩ <;> norm_num
+
+/-- the user-facing labels of the three levels -/
+theorem label_of_level : Level.label .AAA = "Very Readable" ∧ Level.label .AA = "Readable" ∧
+    Level.label .FAIL = "Not Readable" := ⟨rfl, rfl, rfl⟩
 
 end CmProps.C05
